@@ -28,14 +28,14 @@ fn ep_sources(x: &Raw, white: bool) -> u64 {
 
 fn c01_ep(white: bool) {
     let x = any_disjoint();
-    let a = any_aux(kani::any());
+    let a = any_aux(crate::verif_ref::vany());
     let board = Board::verif_from_raw(&x, &a);
     let mut moves = ChessMoveList::new();
     generate_en_passant_moves(&mut moves, &board, color(white));
     let src = ep_sources(&x, white);
     assert!(moves.len() == src.count_ones() as usize, "one en-passant move per own pawn that attacks the target, none without a target");
     assert!(moves.len() <= 2);
-    let i: usize = kani::any();
+    let i: usize = crate::verif_ref::vany();
     if i < moves.len() {
         let m = &moves[i];
         assert!(matches!(m, ChessMove::EnPassant(_)), "emitted as EnPassant");
@@ -72,9 +72,9 @@ fn c01_ep_b() {
 
 fn c01_castle(white: bool) {
     let x = any_repinv(white);
-    let a = any_aux(kani::any());
+    let a = any_aux(crate::verif_ref::vany());
     let board = Board::verif_from_raw(&x, &a);
-    let att: u64 = kani::any();
+    let att: u64 = crate::verif_ref::vany();
     kani_att::reset([att, 0, 0, 0]);
     let mut t = Targets::verif_blank();
     let mut moves = ChessMoveList::new();
@@ -141,13 +141,13 @@ fn c01_castle_b() {
 
 fn c01_filter(white: bool, kind: u8) {
     let x = any_repinv(white);
-    let a = any_aux(kani::any());
+    let a = any_aux(crate::verif_ref::vany());
     kani::assume(a.half[1] < 255 && a.full < 255);
     let m = any_rmove(kind);
     kani::assume(rf::legalish(&x, white, &m));
     let mut board = Board::verif_from_raw(&x, &a);
     let em = engine_move(&x, white, &m);
-    let att: u64 = kani::any();
+    let att: u64 = crate::verif_ref::vany();
     kani_att::reset([att, 0, 0, 0]);
     let mut t = Targets::verif_blank();
     let mut cands = ChessMoveList::new();
@@ -205,7 +205,7 @@ filter_harness!(c01_filter_ooo_b, false, 4);
 /// the filter loop treats candidates independently: two candidates, two attack maps
 fn c01_filter_pair(white: bool) {
     let x = any_repinv(white);
-    let a = any_aux(kani::any());
+    let a = any_aux(crate::verif_ref::vany());
     kani::assume(a.half[1] < 255 && a.full < 255);
     let m1 = any_rmove(0);
     let m2 = any_rmove(0);
@@ -213,8 +213,8 @@ fn c01_filter_pair(white: bool) {
     let mut board = Board::verif_from_raw(&x, &a);
     let e1 = engine_move(&x, white, &m1);
     let e2 = engine_move(&x, white, &m2);
-    let a1: u64 = kani::any();
-    let a2: u64 = kani::any();
+    let a1: u64 = crate::verif_ref::vany();
+    let a2: u64 = crate::verif_ref::vany();
     kani_att::reset([a1, a2, 0, 0]);
     let mut t = Targets::verif_blank();
     let mut cands = ChessMoveList::new();
@@ -329,10 +329,10 @@ pub(crate) mod wire {
 
 fn c01_wire(white: bool) {
     let x = any_disjoint();
-    let a = any_aux(kani::any());
+    let a = any_aux(crate::verif_ref::vany());
     let mut board = Board::verif_from_raw(&x, &a);
     let mut t = Targets::verif_blank();
-    let keep: u8 = kani::any();
+    let keep: u8 = crate::verif_ref::vany();
     unsafe {
         wire::CALLS = [0; 6];
         wire::COLOR_OK = true;
@@ -359,7 +359,7 @@ fn c01_wire(white: bool) {
         }
     }
     assert!(out.len() == (keep & 0x1f).count_ones() as usize, "what the filter keeps is what is returned");
-    let j: usize = kani::any();
+    let j: usize = crate::verif_ref::vany();
     kani::assume(j < 5);
     let mut present = false;
     let mut i = 0;
@@ -474,18 +474,18 @@ pub(crate) mod pwire {
 
 fn c01_wire_pawn(white: bool) {
     let x = any_disjoint();
-    let a = any_aux(kani::any());
+    let a = any_aux(crate::verif_ref::vany());
     let board = Board::verif_from_raw(&x, &a);
-    let s1: (u8, u8, u8) = kani::any();
-    let s2: (u8, u8, u8) = kani::any();
+    let s1: (u8, u8, u8) = crate::verif_ref::vany();
+    let s2: (u8, u8, u8) = crate::verif_ref::vany();
     kani::assume(s1.0 < 64 && s1.1 < 64 && s2.0 < 64 && s2.1 < 64 && s1.2 <= 6 && s2.2 <= 6);
     // S1 stays off the promotion rank, S2 lands on it. The destination squares are concrete so that the
     // partition in generate_pawn_moves has concrete list lengths (SmallVecs of symbolic length are what
     // makes CBMC's encoding explode); origins and capture tags stay symbolic.
     let (s1, s2) = if white { ((s1.0, 20u8, s1.2), (s2.0, 59u8, s2.2)) } else { ((s1.0, 43u8, s1.2), (s2.0, 3u8, s2.2)) };
     unsafe {
-        pwire::PM = kani::any();
-        pwire::PA = kani::any();
+        pwire::PM = crate::verif_ref::vany();
+        pwire::PA = crate::verif_ref::vany();
         pwire::S1 = s1;
         pwire::S2 = s2;
         pwire::CALLS = [0; 4];
@@ -565,7 +565,7 @@ pwire_harness!(c01_wire_pawn_b, false);
 #[kani::unwind(66)]
 fn m5_knight_table() {
     let t = generate_knight_targets_table();
-    let sq: u8 = kani::any();
+    let sq: u8 = crate::verif_ref::vany();
     kani::assume(sq < 64);
     assert!(t[sq as usize].0 == rf::knight_attacks(sq), "knight table entry == on-board L-jumps, no wrap-around");
 }
@@ -574,7 +574,7 @@ fn m5_knight_table() {
 #[kani::unwind(66)]
 fn m5_king_table() {
     let t = generate_king_targets_table();
-    let sq: u8 = kani::any();
+    let sq: u8 = crate::verif_ref::vany();
     kani::assume(sq < 64);
     assert!(t[sq as usize].0 == rf::king_attacks(sq), "king table entry == adjacent on-board squares, no wrap-around");
 }
@@ -586,7 +586,7 @@ fn m5_king_table() {
 #[kani::stub(crate::move_generator::magic_table::MagicTable::new, crate::move_generator::magic_table::MagicTable::verif_empty)]
 fn m5_tables_wired() {
     let t = Targets::default();
-    let sq: u8 = kani::any();
+    let sq: u8 = crate::verif_ref::vany();
     kani::assume(sq < 64);
     assert!(t.verif_king_entry(sq as usize) == rf::king_attacks(sq), "Targets.kings is the king table");
     assert!(t.verif_knight_entry(sq as usize) == rf::knight_attacks(sq), "Targets.knights is the knight table");
@@ -629,7 +629,7 @@ fn c01_pawn_targets(white: bool, max_pawns: u32) {
     let own = x.own(white);
     kani::assume(own[rf::P] & (rf::RANK_1 | rf::RANK_8) == 0);
     kani::assume(own[rf::P].count_ones() <= max_pawns);
-    let a = any_aux(kani::any());
+    let a = any_aux(crate::verif_ref::vany());
     let board = Board::verif_from_raw(&x, &a);
     let occ = x.occ();
     let pt = generate_pawn_move_targets(&board, color(white));
@@ -640,7 +640,7 @@ fn c01_pawn_targets(white: bool, max_pawns: u32) {
         single | dbl
     };
     assert!(pt.len() <= max_pawns as usize);
-    let i: usize = kani::any();
+    let i: usize = crate::verif_ref::vany();
     if i < pt.len() {
         let (p, t) = pt[i];
         assert!(rf::one_hot(p.0) && p.0 & own[rf::P] != 0, "every entry belongs to an own pawn");
@@ -650,7 +650,7 @@ fn c01_pawn_targets(white: bool, max_pawns: u32) {
         }
     }
     // completeness: every own pawn that has a push is listed
-    let s: u8 = kani::any();
+    let s: u8 = crate::verif_ref::vany();
     kani::assume(s < 64);
     let sq = rf::bit(s);
     if own[rf::P] & sq != 0 && want(sq) != 0 {
@@ -674,12 +674,12 @@ fn c01_pawn_attacks(white: bool, max_pawns: u32) {
     let own = x.own(white);
     kani::assume(own[rf::P] & (rf::RANK_1 | rf::RANK_8) == 0);
     kani::assume(own[rf::P].count_ones() <= max_pawns);
-    let a = any_aux(kani::any());
+    let a = any_aux(crate::verif_ref::vany());
     let board = Board::verif_from_raw(&x, &a);
     let mut pt: PieceTargetList = smallvec![];
     generate_pawn_attack_targets(&mut pt, &board, color(white));
     assert!(pt.len() == own[rf::P].count_ones() as usize, "one entry per own pawn");
-    let i: usize = kani::any();
+    let i: usize = crate::verif_ref::vany();
     if i < pt.len() {
         let (p, t) = pt[i];
         assert!(rf::one_hot(p.0) && p.0 & own[rf::P] != 0);
@@ -695,12 +695,12 @@ fn c01_pawn_attacks(white: bool, max_pawns: u32) {
 /// C01.expand: one Standard move per target bit, capture tag == enemy piece on the target, appended
 fn c01_expand(white: bool) {
     let x = any_disjoint();
-    let a = any_aux(kani::any());
+    let a = any_aux(crate::verif_ref::vany());
     let board = Board::verif_from_raw(&x, &a);
     let own_occ = rf::occ6(x.own(white));
-    let s: u8 = kani::any();
+    let s: u8 = crate::verif_ref::vany();
     kani::assume(s < 64);
-    let tg: u64 = kani::any();
+    let tg: u64 = crate::verif_ref::vany();
     kani::assume(tg.count_ones() <= 27 && tg & own_occ == 0);
     let mut pt: PieceTargetList = smallvec![];
     pt.push((Bitboard(rf::bit(s)), Bitboard(tg)));
@@ -710,7 +710,7 @@ fn c01_expand(white: bool) {
     expand_piece_targets(&mut moves, &board, color(white), pt);
     assert!(moves.len() == 1 + tg.count_ones() as usize, "one move per target square, appended to the list");
     assert!(moves[0] == pre);
-    let i: usize = kani::any();
+    let i: usize = crate::verif_ref::vany();
     if i >= 1 && i < moves.len() {
         let m = &moves[i];
         assert!(matches!(m, ChessMove::Standard(_)));
@@ -733,16 +733,16 @@ fn c01_expand(white: bool) {
 /// functions R[sq], B[sq]. Emitted: (sq, (R|B|R∪B)[sq] & !own) for exactly c's rooks/bishops/queens.
 fn c01_slider(white: bool) {
     crate::move_generator::magic_table::kani_uf::init();
-    let opp: [u64; 6] = kani::any();
+    let opp: [u64; 6] = crate::verif_ref::vany();
     let mut own = [0u64; 6];
-    let ksq: u8 = kani::any();
+    let ksq: u8 = crate::verif_ref::vany();
     kani::assume(ksq < 64);
     own[rf::K] = rf::bit(ksq);
     let mut i = 0;
     while i < 3 {
-        let present: bool = kani::any();
-        let sq: u8 = kani::any();
-        let kind: u8 = kani::any();
+        let present: bool = crate::verif_ref::vany();
+        let sq: u8 = crate::verif_ref::vany();
+        let kind: u8 = crate::verif_ref::vany();
         kani::assume(sq < 64 && kind < 5);
         if present {
             kani::assume(rf::occ6(&own) & rf::bit(sq) == 0);
@@ -752,7 +752,7 @@ fn c01_slider(white: bool) {
     }
     let x = if white { Raw { w: own, b: opp, ep: 0, rights: 0 } } else { Raw { w: opp, b: own, ep: 0, rights: 0 } };
     kani::assume(rf::disjoint(&x));
-    let a = any_aux(kani::any());
+    let a = any_aux(crate::verif_ref::vany());
     let board = Board::verif_from_raw(&x, &a);
     let t = Targets::verif_blank();
     let mut pt: PieceTargetList = smallvec![];
@@ -760,7 +760,7 @@ fn c01_slider(white: bool) {
     let sliders = own[rf::B] | own[rf::R] | own[rf::Q];
     let own_occ = rf::occ6(&own);
     assert!(pt.len() == sliders.count_ones() as usize, "one entry per own rook / bishop / queen, nothing for other pieces");
-    let j: usize = kani::any();
+    let j: usize = crate::verif_ref::vany();
     if j < pt.len() {
         let (p, tg) = pt[j];
         assert!(rf::one_hot(p.0) && p.0 & sliders != 0);
@@ -785,13 +785,13 @@ fn c01_slider(white: bool) {
 /// C01.leaper: generate_targets_from_precomputed_tables with uninterpreted tables K[sq], N[sq]:
 /// emitted == {(sq, table[sq] & !own) : sq holds that piece, set non-empty}; k-piece shape (<=3 of the piece)
 fn c01_leaper(white: bool, knight: bool) {
-    let kt: [u64; 64] = kani::any();
-    let nt: [u64; 64] = kani::any();
+    let kt: [u64; 64] = crate::verif_ref::vany();
+    let nt: [u64; 64] = crate::verif_ref::vany();
     let x = any_disjoint();
     let own = x.own(white);
     let which = if knight { rf::N } else { rf::K };
     kani::assume(own[which].count_ones() <= 3);
-    let a = any_aux(kani::any());
+    let a = any_aux(crate::verif_ref::vany());
     let board = Board::verif_from_raw(&x, &a);
     let t = Targets::verif_with_tables(kt, nt);
     let mut pt: PieceTargetList = smallvec![];
@@ -799,7 +799,7 @@ fn c01_leaper(white: bool, knight: bool) {
     let own_occ = rf::occ6(own);
     let tab = |s: usize| if knight { nt[s] } else { kt[s] };
     assert!(pt.len() <= 3);
-    let j: usize = kani::any();
+    let j: usize = crate::verif_ref::vany();
     if j < pt.len() {
         let (p, tg) = pt[j];
         assert!(rf::one_hot(p.0) && p.0 & own[which] != 0, "entry belongs to an own piece of the requested kind");
@@ -808,7 +808,7 @@ fn c01_leaper(white: bool, knight: bool) {
             assert!(pt[j + 1].0 != p, "no duplicates");
         }
     }
-    let s: u8 = kani::any();
+    let s: u8 = crate::verif_ref::vany();
     kani::assume(s < 64);
     if own[which] & rf::bit(s) != 0 && tab(s as usize) & !own_occ != 0 {
         let mut found = false;
@@ -896,9 +896,9 @@ pub(crate) mod a1u {
 
 fn a1_union(white: bool) {
     let x = any_disjoint();
-    let a = any_aux(kani::any());
+    let a = any_aux(crate::verif_ref::vany());
     let board = Board::verif_from_raw(&x, &a);
-    let e: [(u64, u64); 4] = kani::any();
+    let e: [(u64, u64); 4] = crate::verif_ref::vany();
     unsafe {
         a1u::E = e;
         a1u::CALLS = [0; 4];
@@ -984,22 +984,22 @@ pub(crate) mod vstub {
             l
         }
         pub fn vstub_attack(&mut self, _board: &Board, _player: Color) -> Bitboard {
-            Bitboard(kani::any())
+            Bitboard(crate::verif_ref::vany())
         }
     }
 }
 
 fn c06_effect(white: bool, kind: u8) {
     let x = any_repinv(white);
-    let a = any_aux(kani::any());
+    let a = any_aux(crate::verif_ref::vany());
     kani::assume(a.half[1] < 255 && a.full < 255);
     let m = any_rmove(kind);
     kani::assume(rf::legalish(&x, white, &m));
     let mut board = Board::verif_from_raw(&x, &a);
     let mut em = engine_move(&x, white, &m);
     let want = rf::successor(&x, white, &m);
-    let cm: bool = kani::any();
-    let ck: bool = kani::any();
+    let cm: bool = crate::verif_ref::vany();
+    let ck: bool = crate::verif_ref::vany();
     unsafe {
         vstub::CM = cm;
         vstub::CK = ck;
@@ -1009,7 +1009,7 @@ fn c06_effect(white: bool, kind: u8) {
         vstub::OCC_OK = true;
         vstub::WANT_PLAYER_WHITE = !white;
         vstub::WANT_OCC = want.occ();
-        vstub::GEN_EMPTY = kani::any();
+        vstub::GEN_EMPTY = crate::verif_ref::vany();
     }
     let mut mg = MoveGenerator::verif_blank();
     // the annotation loop passes the mover's opponent
@@ -1084,7 +1084,7 @@ pub(crate) mod ewire {
 
 fn c06_effect_wire(white: bool) {
     let x = any_disjoint();
-    let a = any_aux(kani::any());
+    let a = any_aux(crate::verif_ref::vany());
     let mut board = Board::verif_from_raw(&x, &a);
     let mut mg = MoveGenerator::verif_blank();
     unsafe {
@@ -1207,17 +1207,17 @@ pub(crate) mod cwire {
     }
 }
 
-fn c02_wire_moves() {
+/// `hit` is concrete per harness and the lists involved are empty, so that no list of symbolic length or
+/// content is cloned: the subject here is the KEY (and that a hit short-circuits generation), and a small
+/// encoding keeps the counterexample trace small enough for Kani's concrete playback to digest.
+fn c02_wire_moves(hit: bool) {
     let x = any_disjoint();
-    let a = any_aux(kani::any());
+    let a = any_aux(crate::verif_ref::vany());
     let mut board = Board::verif_from_raw(&x, &a);
-    let player_white: bool = kani::any();
-    let hit: bool = kani::any();
-    let mut cached = ChessMoveList::new();
-    cached.push(wire::marker(1));
+    let player_white: bool = crate::verif_ref::vany();
     unsafe {
         cwire::HIT = hit;
-        cwire::CACHED = Some(cached);
+        cwire::CACHED = Some(ChessMoveList::new());
         cwire::GET_CALLS = 0;
         cwire::PUT_CALLS = 0;
         cwire::GEN_CALLS = 0;
@@ -1232,7 +1232,7 @@ fn c02_wire_moves() {
         assert!(cwire::GET_KEY.1 == key.1, "cache key carries the colour the moves were asked for");
         if hit {
             assert!(cwire::GEN_CALLS == 0 && cwire::PUT_CALLS == 0, "a hit is served without generating");
-            assert!(got.len() == 1 && got[0] == wire::marker(1), "a hit returns the stored list");
+            assert!(got.len() == 0, "a hit returns the stored list");
             assert!(mg.cache_hit_count() == hits0 + 1);
         } else {
             assert!(cwire::GEN_CALLS == 1 && cwire::GEN_WHITE == player_white && cwire::GEN_BOARD == &board as *const Board as usize, "a miss generates for this board and colour");
@@ -1245,17 +1245,23 @@ fn c02_wire_moves() {
     core::mem::forget(board);
 }
 
-#[kani::proof]
-#[kani::unwind(8)]
-#[kani::stub(::smallvec::SmallVec::reserve_one_unchecked, stub_no_spill)]
-#[kani::stub(::smallvec::SmallVec::spilled, crate::move_generator::verif_never_spilled)]
-#[kani::stub(::smallvec::SmallVec::try_grow, crate::move_generator::verif_no_grow)]
-#[kani::stub(::lru::LruCache::get, crate::move_generator::kani_verif::cwire::LruStub::get)]
-#[kani::stub(::lru::LruCache::put, crate::move_generator::kani_verif::cwire::lru_put)]
-#[kani::stub(crate::move_generator::generate_valid_moves, crate::move_generator::kani_verif::cwire::gen_valid)]
-fn c02_wire_move_cache() {
-    c02_wire_moves();
+macro_rules! cwire_harness {
+    ($name:ident, $hit:expr) => {
+        #[kani::proof]
+        #[kani::unwind(8)]
+        #[kani::stub(::smallvec::SmallVec::reserve_one_unchecked, stub_no_spill)]
+        #[kani::stub(::smallvec::SmallVec::spilled, crate::move_generator::verif_never_spilled)]
+        #[kani::stub(::smallvec::SmallVec::try_grow, crate::move_generator::verif_no_grow)]
+        #[kani::stub(::lru::LruCache::get, crate::move_generator::kani_verif::cwire::LruStub::get)]
+        #[kani::stub(::lru::LruCache::put, crate::move_generator::kani_verif::cwire::lru_put)]
+        #[kani::stub(crate::move_generator::generate_valid_moves, crate::move_generator::kani_verif::cwire::gen_valid)]
+        fn $name() {
+            c02_wire_moves($hit);
+        }
+    };
 }
+cwire_harness!(c02_wire_move_cache_miss, false);
+cwire_harness!(c02_wire_move_cache_hit, true);
 
 #[kani::proof]
 #[kani::unwind(8)]
@@ -1264,11 +1270,11 @@ fn c02_wire_move_cache() {
 #[kani::stub(crate::move_generator::targets::Targets::generate_attack_targets, crate::move_generator::targets::Targets::stub_attack)]
 fn c02_wire_attack_cache() {
     let x = any_disjoint();
-    let a = any_aux(kani::any());
+    let a = any_aux(crate::verif_ref::vany());
     let board = Board::verif_from_raw(&x, &a);
-    let player_white: bool = kani::any();
-    let cached: Option<u64> = if kani::any() { Some(kani::any()) } else { None };
-    let fresh: u64 = kani::any();
+    let player_white: bool = crate::verif_ref::vany();
+    let cached: Option<u64> = if crate::verif_ref::vany() { Some(crate::verif_ref::vany()) } else { None };
+    let fresh: u64 = crate::verif_ref::vany();
     kani_att::reset([fresh, 0, 0, 0]);
     unsafe {
         cwire::AHIT = cached;
@@ -1331,7 +1337,7 @@ fn c01_filter_fixed(case: u8) {
     let a = Aux { ep_prefix: 0, rights_prefix: 15, half: [0, 3], full: 10, hash: 7, max_seen: [1, 1], turn_white: white };
     let mut board = Board::verif_from_raw(&x, &a);
     let em = engine_move(&x, white, &m);
-    let att: u64 = kani::any();
+    let att: u64 = crate::verif_ref::vany();
     kani_att::reset([att, 0, 0, 0]);
     let mut t = Targets::verif_blank();
     let mut cands = ChessMoveList::new();
@@ -1379,11 +1385,11 @@ filter_fixed_harness!(c01_filter_fixed_promo, 5);
 
 // ---- smallvec cost probes (experimental; not part of any check) ----------------------------------
 fn sv_probe(which: u8) {
-    let f: u8 = kani::any();
-    let t: u8 = kani::any();
+    let f: u8 = crate::verif_ref::vany();
+    let t: u8 = crate::verif_ref::vany();
     kani::assume(f < 64 && t < 64);
     let m = ChessMove::Standard(StandardChessMove::new(Bitboard(rf::bit(f)), Bitboard(rf::bit(t)), None));
-    let cond: bool = kani::any();
+    let cond: bool = crate::verif_ref::vany();
     let mut v = ChessMoveList::new();
     if cond {
         v.push(m.clone());
@@ -1444,8 +1450,8 @@ sv_harness!(sv_probe_3, 3);
 sv_harness!(sv_probe_4, 4);
 
 fn sv_probe2(which: u8) {
-    let cond: bool = kani::any();
-    let a: u64 = kani::any();
+    let cond: bool = crate::verif_ref::vany();
+    let a: u64 = crate::verif_ref::vany();
     match which {
         5 => {
             let mut v: PieceTargetList = smallvec![];
@@ -1477,7 +1483,7 @@ fn sv_probe2(which: u8) {
         }
         7 => {
             // iterate by index instead of drain
-            let f: u8 = kani::any();
+            let f: u8 = crate::verif_ref::vany();
             kani::assume(f < 64);
             let m = ChessMove::Standard(StandardChessMove::new(Bitboard(rf::bit(f)), Bitboard(1), None));
             let mut v = ChessMoveList::new();
@@ -1495,7 +1501,7 @@ fn sv_probe2(which: u8) {
         }
         _ => {
             // drain with a concrete length but symbolic CONTENT
-            let f: u8 = kani::any();
+            let f: u8 = crate::verif_ref::vany();
             kani::assume(f < 64);
             let m = ChessMove::Standard(StandardChessMove::new(Bitboard(rf::bit(f)), Bitboard(1), None));
             let mut v = ChessMoveList::new();
